@@ -202,7 +202,7 @@ static Req valid_req(Rng &g, Pool &p, bool secret, int maxcost) {
 }
 static Req invalid_req(Rng &g, Pool &p, bool secret) {
   Req r = valid_req(g, p, secret, 3);
-  switch (g.below(13)) {
+  switch (g.below(14)) {
     case 0: r.ph = Bytes::Null(); r.cls = "null-phrase"; r.mustfail = true; break;
     case 1: r.st = Bytes::Null(); r.cls = "null-setting"; r.mustfail = true; break;
     case 2: r.ph = Bytes(mk_phrase(g, (size_t)g.range(512, 700), (int)g.below(2))); r.cls = "long-phrase"; r.mustfail = true; break;
@@ -250,6 +250,19 @@ static Req invalid_req(Rng &g, Pool &p, bool secret) {
         if (!cheap_enough(s, orig)) s = before;
       }
       r.st = Bytes(s); r.cls = s == orig ? "valid" : "mutated"; break;
+    }
+    case 10: {  // memory parameters far beyond any machine: the mapping request is refused at once (by the simulated
+                // machine and by the reference's real kernel alike), so these calls are cheap - and they are the only
+                // way to reach code that is keyed on very large region sizes
+      char buf[256]; std::string s;
+      switch (g.below(3)) {
+        // N stays below 2^32 and r*p below 2^30 (the algorithm's own limits); 128*r*N is what gets absurd (2^41..2^51 bytes)
+        case 0: s = std::string("$7$") + B64[g.range(27, 31)] + enc30(1u << g.range(7, 13)) + enc30(1) + b64salt(g, 8) + "$"; r.m = "scrypt"; break;
+        case 1: if (gen_yescrypt_setting(0x0b6, 1ull << g.range(27, 31), 1u << g.range(7, 13), 1, 0, (const unsigned char *)"absurdsalt123456", 16, buf, sizeof buf)) s = buf; r.m = "yescrypt"; break;
+        default: if (gen_yescrypt_setting(0x0b6, 1ull << g.range(27, 31), 1u << g.range(7, 13), 1, 0, (const unsigned char *)"absurdsalt123456", 16, buf, sizeof buf)) { s = buf; s = "$gy$" + s.substr(3); } r.m = "gost_yescrypt"; break;
+      }
+      if (!s.empty()) { r.st = Bytes(s); r.cls = "absurd-memory"; }
+      break;
     }
     case 7: {  // truncation of a valid setting (may still be valid: the reference decides)
       std::string s = r.st.b; if (!s.empty()) s.resize(g.below(s.size())); r.st = Bytes(s); r.cls = "truncated"; break;
